@@ -15,7 +15,7 @@ import os
 from . import common as C
 from . import conc
 
-WANT = ("lin", "null", "deadlock")
+WANT = ("lin", "null", "deadlock", "coherent")
 
 
 def run(tier, seed):
